@@ -25,6 +25,9 @@ type c27cfg struct {
 	// concurrent: the next holder is another thread that is already waiting in Dedicated() for the only pooled
 	// connection while the first holder releases it; it installs its own callback, turns tracking on and reads k3
 	concurrent bool
+	// nocache: ClientOption.DisableCache with manual tracking (CLIENT TRACKING ON sent by the user, plain GETs): the
+	// callbacks must behave the same, including the nil at connection loss
+	nocache bool
 }
 
 func c27pushLog(s *simredis.Session) []string {
@@ -57,6 +60,7 @@ func c27body(c c27cfg) func(x *vsched.Exec) {
 			srv.Do("SET", "k2", "b")
 			srv.Do("SET", "k3", "c")
 			o.BlockingPoolSize = 1
+			o.DisableCache = c.nocache
 			if !c.dedicated {
 				o.OnInvalidations = record
 			}
@@ -100,6 +104,14 @@ func c27body(c c27cfg) func(x *vsched.Exec) {
 				e.client.Dedicated(func(d2 DedicatedClient) error {
 					return d2.Do(ctx, b.Echo().Message("second-holder").Build()).Error()
 				})
+				return
+			}
+			if c.nocache {
+				e.client.Do(ctx, b.Arbitrary("CLIENT", "TRACKING", "ON").Build())
+				for _, k := range []string{"k1", "k2"} {
+					e.client.Do(ctx, b.Get().Key(k).Build())
+				}
+				warmed = true
 				return
 			}
 			for _, k := range []string{"k1", "k2"} {
@@ -244,7 +256,7 @@ func c27body(c c27cfg) func(x *vsched.Exec) {
 
 func TestVerif_C27(t *testing.T) {
 	vrun.Main(t, "C27", func(r *vrun.Run) {
-		r.Rule = "a real client whose connection tracks two keys (OnInvalidations option, or a dedicated client with SetOnInvalidations that is released and reused afterwards) x every out-of-band event sequence of length <=2 (thorough <=3) over {SET k1, SET k2, MSET k1 k2, FLUSHALL, connection drop}, opt-in and broadcast tracking; all schedules within the preemption/delay bound; oracle: callback argument log = the server's invalidation push log of that session in wire order (+ exactly one nil at connection loss), CLIENT TRACKING OFF precedes the next holder's first command (the next holder being the same thread, or another thread already blocked on the exhausted pool that turns tracking on again and must see its own invalidation)"
+		r.Rule = "a real client whose connection tracks two keys (OnInvalidations option, or a dedicated client with SetOnInvalidations that is released and reused afterwards) x every out-of-band event sequence of length <=2 (thorough <=3) over {SET k1, SET k2, MSET k1 k2, FLUSHALL, connection drop}, opt-in and broadcast tracking, and DisableCache with tracking switched on by the user; all schedules within the preemption/delay bound; oracle: callback argument log = the server's invalidation push log of that session in wire order (+ exactly one nil at connection loss), CLIENT TRACKING OFF precedes the next holder's first command (the next holder being the same thread, or another thread already blocked on the exhausted pool that turns tracking on again and must see its own invalidation)"
 		evs := []string{"set1", "set2", "mset", "flush", "drop"}
 		var seqs [][]string
 		maxLen := vrun.Pick(r, 2, 3)
@@ -274,6 +286,9 @@ func TestVerif_C27(t *testing.T) {
 					cfgs = append(cfgs, c27cfg{name: fmt.Sprintf("ded=%v/%s/%s", ded, mode, strings.Join(sq, ",")), dedicated: ded, events: sq, mode: mode})
 				}
 			}
+		}
+		for _, sq := range [][]string{{"set1"}, {"drop"}, {"set1", "drop"}, {"mset", "flush"}, {"flush", "drop"}} {
+			cfgs = append(cfgs, c27cfg{name: "ded=false/nocache/" + strings.Join(sq, ","), events: sq, mode: "manual", nocache: true})
 		}
 		for _, sq := range [][]string{{"set1"}, {"flush"}, {"set1", "set2"}} {
 			cfgs = append(cfgs, c27cfg{name: "ded=true/optin/concurrent-next-holder/" + strings.Join(sq, ","), dedicated: true, events: sq, mode: "optin", concurrent: true})
